@@ -223,7 +223,7 @@ def completion(r):
     return bytes(lo for lo, hi in r)
 
 
-ENTRIES = ["WebSocket()", "create_connection()", "create_connection(skip=...)", "WebSocket(skip=...).connect()"]
+ENTRIES = ["WebSocket()", "create_connection()", "create_connection(skip=...)", "WebSocket(skip=...).connect()", "second connect() after connect(skip_utf8_validation=True, fire_cont_frame=True)()"]
 
 
 def e2e_case(payload, nfrag_cuts, validate, api, as_close=False, entry=None):
@@ -249,6 +249,19 @@ def e2e_case(payload, nfrag_cuts, validate, api, as_close=False, entry=None):
             ws, sock = env.prepared_ws("fresh")
         elif entry == "create_connection()":
             ws, sock = env.prepared_ws("created")
+        elif entry.startswith("second connect()"):
+            # connect() takes keyword options; options it does not know are ignored today. Whatever a connect() call is given, the NEXT
+            # connection of the same object is validated according to the constructor (default: validation on)
+            ws = lib.websocket.WebSocket()
+            first = env.handshake_sock()
+            ws.connect("ws://example.com/first", socket=first, skip_utf8_validation=True, fire_cont_frame=True)
+            first.at_end = "eof"
+            ws.close()
+            sock = env.handshake_sock()
+            ws.connect("ws://example.com/chat", socket=sock)
+            del sock.stream[sock.cursor:]
+            sock.log = []
+            sock.written = bytearray()
         elif entry == "create_connection(skip=...)":
             ws, sock = env.prepared_ws("created", skip_utf8_validation=not validate)
         else:
